@@ -647,7 +647,10 @@ def make_kernel_hook(name):
                 return mon.skip(why)
             dims.append(kd)
         dims = np.array(dims)
-        cls = "%dx%d/%s%s" % (m, n, "batch" if batch else "unit",
+        shape_kind = "square" if m == n else ("tall" if m > n else "wide")
+        cls = "%s/%s/%s%s" % (shape_kind,
+                              "zero-dimensional-kernel" if np.all(dims == 0) else "kernel-dimension>0",
+                              "batch" if batch else "unit",
                               "/assume_full_rank" if afr else ("" if mr else "/matching_rank=False"))
         case = {"function": name, "matrix": M if M.size <= 200 else M.shape, "options":
                 {"assume_full_rank": afr, "matching_rank": mr, "with_dimensions": wd, "with_loc": wl}}
@@ -965,6 +968,8 @@ def wl_frames(run, rng, idx):
                 E[i, j] = float(rng.integers(-2, 3))
                 U = U @ E
         F = U.T @ np.diag([1.0] * p + [-1.0] * q) @ U
+        if not lin.signature(F, 2 * EIG)[2]:
+            F = np.diag([1.0] * p + [-1.0] * q)      # keep the form in-domain
         fkind = "integer"
     else:
         F = form_in_domain(rng, p, q)
